@@ -1,14 +1,17 @@
 """Which units (and extra engines) serve which property, plus MANIFEST metadata."""
-UNITS = ['u_list', 'u_jobs', 'u_tok', 'u_plan', 'u_exp1', 'u_calc', 'u_exp2', 'u_wait']
+UNITS = ['u_list', 'u_jobs', 'u_tok', 'u_plan', 'u_exp1', 'u_calc', 'u_exp2', 'u_wait', 'u_fd']
 
 PROPERTY_UNITS = {
     'C03': ['u_list'],
     'C06': ['u_jobs', 'u_wait'],
-    'C05': ['u_list', 'u_jobs', 'u_tok', 'u_plan', 'u_exp1', 'u_calc', 'u_exp2', 'u_wait'],
+    'C05': ['u_list', 'u_jobs', 'u_tok', 'u_plan', 'u_exp1', 'u_calc', 'u_exp2', 'u_wait', 'u_fd'],
     'C01': ['u_plan', 'u_exp1', 'u_exp2'],
     'C13': ['u_plan', 'u_exp1', 'u_exp2'],
     'C12': ['u_exp1', 'u_exp2'],
     'C10': ['u_exp2'],
+    'C02': ['u_fd', 'u_wait', 'u_plan'],
+    'C04': ['u_fd', 'u_plan'],
+    'C08': ['u_fd'],
     'C17': ['u_exp2'],
     'C19': ['u_calc'],
 }
@@ -90,6 +93,29 @@ META['C17'] = {
             'is not under contract; the xargs special case is cicada\'s documented behaviour and is part of the head-position definition.',
 }
 
+META['C02'] = {
+    'text': 'Over a ghost kernel in which pipe()/dup()/open() may return ANY unused descriptor number, Verus proves that run_pipeline creates n-1 pipes, starts each stage at most '
+            'once and in order, that the child of stage i reaches exec with stdin = read end of pipe i-1 and stdout = write end of pipe i (or the redirect), that no other pipe '
+            'end survives in any child and that the shell closes its copies (so EOF can propagate); against an adversarial waitpid the foreground wait classifies every event and '
+            'reports the status of the last stage\'s latest event (128+signal when killed).',
+    'note': 'POSIX pipe/dup2/close/fork semantics assumed (ghost kernel contracts); that bytes written to a pipe arrive at its read end and EOF follows the last close is kernel '
+            'behaviour (assumed); liveness of waitpid assumed; known findings: wait counts events not processes; N>&M on a captured last stage; stage-start failure paths.',
+}
+META['C04'] = {
+    'text': 'Verus proves that at exec the descriptors 1 and 2 of a stage are exactly the result of applying its redirections left to right (N>&M copies what M refers to at that point; '
+            '> truncates, >> appends) on top of the pipeline wiring, and descriptor 0 is the < file, the here-string pipe or the previous stage; redirect descriptors are 1 or 2; '
+            'unopenable targets exit(1) before exec; only the redirected stage is affected (the shell\'s table is restored).',
+    'note': 'regex captures of redirection spellings are uninterpreted (triples as produced); builtins\' own descriptor computation (_get_std_fds) not under contract; open(2) semantics assumed; '
+            'known finding: N>&M is skipped on the captured last stage ($(cmd 2>&1)).',
+}
+META['C08'] = {
+    'text': 'Verus proves, for every pipeline length, every redirection list and every choice of descriptor numbers by the kernel, that a spawned program starts with exactly {0,1,2} '
+            'open (descriptors with FD_CLOEXEC are not counted) and that run_pipeline leaves the shell\'s descriptor table exactly as it found it on every path, including pipe() '
+            'failure while creating the stage pipes or the capture pipes.',
+    'note': 'precondition: the shell itself has only 0,1,2 (plus close-on-exec handles: history DB, log) when a pipeline starts; POSIX semantics assumed; builtins\' print helpers '
+            '(dup of 1/2) not under contract; known finding: when starting a stage fails (here-string pipe or fork error) that stage\'s descriptors stay open.',
+}
+
 _PENDING = 'not yet brought under contract in this revision of /verif (work in progress; see DESIGN.md)'
 NOT_APPLICABLE = {
     'C14': 'parse tree comes from a macro-generated pest parser and the external, lifetime-parameterised pest::iterators::Pair type; no contract within reach',
@@ -97,5 +123,5 @@ NOT_APPLICABLE = {
     'C18': 'semantics live in SQLite\'s SQL parser (bundled C library); SQL is built with format!, outside Verus',
     'C20': 'needs the lineread completer protocol, a populated filesystem and the escaped-word round trip (a recorded C01 violation)',
 }
-for _p in ['C02', 'C04', 'C07', 'C08', 'C09', 'C11', 'C15']:
+for _p in ['C07', 'C09', 'C11', 'C15']:
     NOT_APPLICABLE.setdefault(_p, _PENDING)
